@@ -88,6 +88,9 @@ def rand_grid(rng):
             rows[rng.randrange(ny)][rng.randrange(nx)] = rng.choice([1.70141e38, 1.70141e38, 1.7014117e38, 3e38])
     if rng.random() < 0.1:
         rows[0][0] = rng.choice([1.70140e38, 1.701409e38])      # just below the threshold: a legitimate value
+    if rng.random() < 0.12:
+        # as far BELOW zero as the blank sentinel is above it: an ordinary (if extreme) value - only cells at or above the sentinel are blank
+        rows[rng.randrange(ny)][rng.randrange(nx)] = rng.choice([-1.70141e38, -1.7014117e38, -3e38, -1.70140e38])
     s, w = rng.randint(-400, 400) / 4.0, rng.randint(-400, 400) / 4.0
     return ny, nx, rows, (s, s + rng.randint(1, 400) / 4.0), (w, w + rng.randint(1, 400) / 4.0)
 
@@ -109,6 +112,11 @@ def corpus():
     cs = [mk(rng, rows=rows, dtype="float64", as_path=True, kind="corpus", **base),
           mk(rng, rows=rows, dtype="float32", as_path=False, kind="corpus-fileobj", **base),
           mk(rng, rows=[[1.0, 2.0, 1.70141e38], [4.0, 5.0, 6.5]], dtype="float64", as_path=True, kind="corpus-blank", **base),
+          mk(rng, rows=[[1.0, -1.70141e38, 3.0], [4.0, 1.70141e38, 6.5]], dtype="float64", as_path=True, kind="corpus-negative-sentinel-magnitude",
+             **dict(base, range_toks=["-1.70141e38", "6.5"])),
+          mk(rng, rows=[[1.0, -3e38, 3.0], [4.0, 5.0, 6.5]], dtype="float32", as_path=False, kind="corpus-negative-sentinel-magnitude",
+             **dict(base, range_toks=["-3e38", "6.5"])),
+          mk(rng, rows=[[1.0, -3e38, 3.0], [4.0, 5.0, 6.5]], dtype="float64", as_path=True, kind="bad-range-omits-large-negative", **base),
           mk(rng, rows=rows, dtype="float64", as_path=True, kind="bad-shape-swapped", **dict(base, shape_toks=["3", "2"])),
           mk(rng, rows=rows, dtype="float64", as_path=True, kind="bad-range", **dict(base, range_toks=["1", "6"])),
           mk(rng, rows=rows, dtype="float64", as_path=True, kind="bad-token", **dict(base, ns_toks=["0", "x"])),
